@@ -161,6 +161,27 @@ func gapHasComment(edits []edit, g int) bool {
 	return false
 }
 
+// listRegion reports whether token i belongs to an IN / VALUES list: inside its parentheses, one of
+// the parentheses, or the comma between two VALUES rows.
+func listRegion(s stmt, i int) bool {
+	if i < 0 || i >= len(s.Toks) {
+		return false
+	}
+	t := s.Toks[i]
+	switch t.R {
+	case "inopen", "inclose", "valopen", "valclose":
+		return true
+	}
+	if t.D > 0 {
+		return true
+	}
+	if t.S == "," && i > 0 && i+1 < len(s.Toks) {
+		a, b := s.Toks[i-1], s.Toks[i+1]
+		return a.D > 0 || b.D > 0 || a.R == "valclose" || b.R == "valopen"
+	}
+	return false
+}
+
 // classifyEdit maps a responsible edit to the known finding whose root cause it matches ("" = none).
 func classifyEdit(s stmt, edits []edit, culprits []int, i int) string {
 	e := edits[i]
@@ -202,6 +223,13 @@ func classifyEdit(s stmt, edits []edit, culprits []int, i int) string {
 			// parenthesis in the comment text is taken for SQL
 			return "C36-F8"
 		}
+	case "ws":
+		// F8: once a comment with a quote / parenthesis stands inside an IN / VALUES list, the text of the
+		// list (string values included) is scanned as SQL, so a newline instead of a blank inside or
+		// next to that list can change the fingerprint; only together with such a comment
+		if (listRegion(s, e.At) || listRegion(s, e.At+1)) && listCommentWithSQLChars(s, edits, culprits) {
+			return "C36-F8"
+		}
 	case "lit":
 		old := s.Toks[e.At].S
 		if s.Toks[e.At].K == kDec && (strings.HasPrefix(strings.TrimLeft(old, "+-"), ".") != strings.HasPrefix(strings.TrimLeft(e.New, "+-"), ".")) {
@@ -213,7 +241,7 @@ func classifyEdit(s stmt, edits []edit, culprits []int, i int) string {
 			// number of "?" depends on how many doubled quotes the value holds
 			return "C36-F5"
 		}
-		if s.Toks[e.At].K == kStr && s.Toks[e.At].D > 0 && listCommentWithSQLChars(s, edits, culprits) {
+		if s.Toks[e.At].D > 0 && listCommentWithSQLChars(s, edits, culprits) {
 			// F8: a quote in a comment inside the list pairs up with the quotes of the list's string
 			// values, so the fingerprint depends on the value once such a comment is present
 			return "C36-F8"
